@@ -917,7 +917,7 @@ class Bag(DaskMethodsMixin):
         if initial is not no_default:
             return self.reduction(
                 curry(_reduce, binop, initial=initial),
-                curry(_reduce, combine),
+                curry(_reduce_partials, combine, initial=initial),
                 split_every=split_every,
                 out_type=out_type,
             )
@@ -2374,6 +2374,14 @@ def _reduce(binop, sequence, initial=no_default):
         return reduce(binop, sequence, initial)
     else:
         return reduce(binop, sequence)
+
+
+def _reduce_partials(combine, partials, initial):
+    # every partition may have been empty: then there is nothing to combine
+    partials = list(partials)
+    if not partials:
+        return initial
+    return reduce(combine, partials)
 
 
 def make_group(k, stage):
